@@ -449,26 +449,26 @@ def legs(ctx):
         ds = addsub_ds(fmt, q)
         shards = [(fmt.size, q, d, e) for d in ds for e in addsub_bases(d)]
         nm = len(addsub_mants(fmt, q))
-        out.append(Leg('addsub-' + fmt.name, shards, work_addsub, exhaustive=True, bound=(
+        out.append(Leg('addsub-' + fmt.name, shards, work_addsub, exhaustive=False, bound=(
             '%d x %d mantissa pairs x alignment shifts d in %s x base exponent bytes {1,2,80h,254-d,255-d} x both orders '
             'x %s' % (nm, nm, _ranges(ds), '{a+b, a+(-b), a-b, (-a)-b}' if q else '{+,-} x 4 sign combinations'))))
     for fmt in (mbf.SNG, mbf.DBL):
         nm = len(muldiv_mants(fmt, q))
         step = 8 if q else (16 if fmt is mbf.SNG else 8)
         shards = [(fmt.size, q, lo, min(lo + step, nm)) for lo in range(0, nm, step)]
-        out.append(Leg('muldiv-mant-' + fmt.name, shards, work_muldiv_mant, exhaustive=True, bound=(
+        out.append(Leg('muldiv-mant-' + fmt.name, shards, work_muldiv_mant, exhaustive=False, bound=(
             '%d x %d mantissa pairs x {*,/} x %s at exponent bytes %s' % (
                 nm, nm, '2 sign combinations' if q else '4 sign combinations',
                 '(81h,81h)' if q else '(81h,81h),(70h,95h)'))))
     for fmt in (mbf.SNG, mbf.DBL):
         shards = [(fmt.size, q, c) for c in chunked(range(1, 256), 5 if q else 2)]
-        out.append(Leg('muldiv-exp-' + fmt.name, shards, work_muldiv_exp, exhaustive=True, bound=(
+        out.append(Leg('muldiv-exp-' + fmt.name, shards, work_muldiv_exp, exhaustive=False, bound=(
             ('(all 255 exponent bytes x %d edge bytes, both orders)' % len(EXP_EDGE) if q else 'all 255 x 255 exponent byte pairs')
             + ' x 8 x 8 mantissas straddling the normalisation boundary x {*,/} x %d sign combinations' % (1 if q else 2))))
-    out.append(Leg('zero', [(4,), (8,)], work_zero, exhaustive=True,
+    out.append(Leg('zero', [(4,), (8,)], work_zero, exhaustive=False,
                    bound='24 zero encodings (zero exponent byte, any mantissa/sign) x (2 signs x 7 exponent bytes x 61/121 '
                          'mantissas, both orders; all zero pairs) x {+,-,*,/}, hard and soft'))
-    out.append(Leg('session', list(chunked(_session_cases(), 5)), work_session, exhaustive=True,
+    out.append(Leg('session', list(chunked(_session_cases(), 5)), work_session, exhaustive=False,
                    bound='%d operand pairs end-to-end in direct mode (soft handling) and under ON ERROR GOTO' % len(_session_cases())))
     return out
 
